@@ -104,7 +104,10 @@ CFG = {
                   "configuration pgp::Signer::sign assembles has exactly one Issuer and one IssuerFingerprint sub-packet and the given creation time "
                   "(config_one_issuer, config_one_fingerprint, config_created_eq), timestamp_opt(..).unwrap() cannot panic for a u32 (timestamp_opt_total); hence "
                   "IssuerOk / LegacyOk / AlgOk are theorems for every PgpScheme with ParseSeal (pgp_issuerOk, pgp_legacyOk, pgp_algOk, pgp_history_verify, "
-                  "pgp_history_keyids).",
+                  "pgp_history_keyids). verifyWith — this property's mirror of Package::verify_signature — IS C02's verifySignatureS at the stateless verifier object of the key "
+                  "and the scheme's base64 decoder, result and error class (verifyWith_eq_verifySignatureS): one function, two views; C02's theorems apply to it (used by "
+                  "C02.tamper_rejected_build_sign). signature_key_ids narrows the issuer count to u32 with an unwrap (Sign.issuerCountErr), unreachable under "
+                  "SigScheme.IssuerSmall (C04.oneIssuer_total / oneIssuer_u32_overflow).",
     "level_note": "Trusted: Lean kernel; model fidelity as exercised (every record of every enumerated history predicted); the pgp crate behind the SigScheme "
                   "hypotheses (exercised with four real keys, gpgv as independent oracle in the thorough tier); hash crates.",
 }
